@@ -538,7 +538,7 @@ theorem call_cut_off (fuel : Nat) (fn : FuncDecl) (args : List Value) (st : ESta
     refine hc.bind _ _ (closed_declareParams hc _) (fun _ => hc.bind _ _ hc.clearReturn (fun _ => ?_))
     dsimp only
     split
-    · exact hc.bind _ _ (frameInd_execSeq fuel _) (fun _ => hc.getReturnValue)
-    · exact hc.bind _ _ (frameInd_exec fuel _) (fun _ => hc.getReturnValue)
+    · exact hc.bind _ _ (frameInd_execSeq fuel _) (fun _ => hc.bind _ _ hc.getReturnValue (fun _ => hc.pure _))
+    · exact hc.bind _ _ (frameInd_exec fuel _) (fun _ => hc.bind _ _ hc.getReturnValue (fun _ => hc.pure _))
 
 end BlochVerif.Eval
